@@ -128,6 +128,12 @@ def scenarios(rng: random.Random, tier: str):
     out.append(nodegen.CONFIGS["basic"] + " | start | " + " | ".join(
         f"acc | rx {i} " + nodegen.cer("stranger.x", "4", n(), n()) for i in range(4)) + " | tick")
     out.append(nodegen.CONFIGS["out"] + " | start fail,fail | adv 6 | dial fail,ok | adv 6")
+    # a dialled peer answers with its name in another spelling (host identities compare case-insensitively); the connection
+    # then ends in each way: the peer's record is released and it is dialled again
+    for spell in ("PEER1.X", "Peer1.x"):
+        for end in ("eof 0", "rerr 0 hard", "rx 0 " + nodegen.dpr(n(), n(), spell) + " | eof 0", "adv 9 | adv 4"):
+            out.append(nodegen.CONFIGS["out"] + " | start ok,fail | rx 0 " + nodegen.cea(2001, spell, 2001, 268435464, auth="4") +
+                       f" | tick | {end} | tick | adv 6 | tick")
     # two connections fail on a write in the same pass of the I/O loop (both close themselves and signal the node)
     out.append(two + " | start | acc | rx 0 " + nodegen.cer("peer1.x", "4+3", n(), n(), extra=",acct=3") + " | acc | rx 1 " +
                nodegen.cer("peer2.x", "4+3", n(), n(), extra=",acct=3") + " | wr 0 hard | wr 1 hard | rxm 0:" +
